@@ -18,16 +18,17 @@ import (
 // need: each trans flag must come from a test of that operand.
 
 type lgEntry struct {
-	Rule     string   // L1 raw access guard, L3 order agreement, L4 exporter order, LB BLAS gateway
-	Func     string   // function key
-	Site     string   // substring of the statement that performs the access
-	Goal     string   // canonical boolean formula that must hold ("" = none)
-	Decides  []string // atoms the path must have branched on
-	OrStep   string   // alternatively, a statement containing this text occurs earlier on the path
-	NotAfter string   // paths on which a statement containing this text occurs are not instances (error exits)
-	MustStep string   // a statement containing this text must occur earlier on the path
-	Props    []string
-	Why      string
+	Rule      string   // L1 raw access guard, L3 order agreement, L4 exporter order, LB BLAS gateway
+	Func      string   // function key
+	Site      string   // substring of the statement that performs the access
+	Goal      string   // canonical boolean formula that must hold ("" = none)
+	Decides   []string // atoms the path must have branched on
+	OrStep    string   // alternatively, a statement containing this text occurs earlier on the path
+	NotAfter  string   // paths on which a statement containing this text occurs are not instances (error exits)
+	MustStep  string   // a statement containing this text must occur earlier on the path
+	MustAfter string   // a statement containing this text must occur later on the path
+	Props     []string
+	Why       string
 }
 
 var lgTable = []lgEntry{
@@ -82,6 +83,7 @@ var lgTable = []lgEntry{
 	{Rule: "L1", Func: "tensor.doMaskAll", Site: "range %ts.mask", Goal: "(%ts.IsMasked() && (%ts.Size() == len(%ts.mask)))", Props: []string{"C15"}, Why: "the whole-mask fold is the fold over the tensor's elements only when the mask covers exactly those elements (a view's mask window is longer)"},
 	{Rule: "L1", Func: "tensor.doMaskAny", Site: "range %ts.mask", Goal: "(%ts.IsMasked() && (%ts.Size() == len(%ts.mask)))", Props: []string{"C15"}, Why: "the whole-mask fold is the fold over the tensor's elements only when the mask covers exactly those elements"},
 	{Rule: "L1", Func: "tensor.doMaskCt", Site: "range %ts.mask", Goal: "(%ts.IsMasked() && (%ts.Size() == len(%ts.mask)))", Props: []string{"C15"}, Why: "the whole-mask count is the count over the tensor's elements only when the mask covers exactly those elements"},
+	{Rule: "L1", Func: "tensor.(StdEng).Dot", Site: "copyDense(%reuse, %rd)", MustAfter: "%reuse.setAP(", Props: []string{"C09", "C16"}, Why: "the raw copy hands the result's storage over to the reuse tensor as it is laid out: the reuse tensor must adopt the result's access pattern (strides and data order), not recompute strides from its own order"},
 	// ---- native (zero-copy) conversions: windows of the raw backing array ------------------------
 	{Rule: "L1", Func: "native.checkNativeIterable", Site: "return nil", Goal: "(!$t.RequiresIterator() && !$t.F())", Props: []string{"C04", "C16"}, Why: "the native [][]T / [][][]T views are windows of the raw backing array: only a tensor that needs no iterator (not sliced with gaps, not lazily transposed, not masked) and is row-major may be converted"},
 	{Rule: "L1", Func: "native.checkNativeSelectable", Site: "return nil", Goal: "(!$t.RequiresIterator() && !$t.F())", Props: []string{"C04", "C16"}, Why: "native selection hands out windows of the raw backing array"},
@@ -242,6 +244,17 @@ func LGuards(rc *RC, prop string) {
 					}
 					if !found {
 						bad = append(bad, fmt.Sprintf("reached with [%s] without a test of the mandatory step %s", strings.Join(p.Guards, " && "), e.MustStep))
+					}
+				}
+				if e.MustAfter != "" {
+					found := false
+					for _, st := range p.Steps[min(hit, len(p.Steps)):] {
+						if strings.Contains(st.Head, e.MustAfter) {
+							found = true
+						}
+					}
+					if !found {
+						bad = append(bad, fmt.Sprintf("reached with [%s] and not followed by the mandatory step %s", strings.Join(p.Guards, " && "), e.MustAfter))
 					}
 				}
 				if e.OrStep != "" {
